@@ -332,3 +332,53 @@ cbor_item_t* walk_build_from_ref(const rnode* n) {
   }
   return it;
 }
+
+/* Predicates and type-specific getters must agree with each other on every node.
+ * Returns NULL if consistent, else a static description of the first inconsistency. */
+static const char* check_node_predicates(const cbor_item_t* it) {
+  cbor_type t = cbor_typeof(it);
+  int isa = cbor_isa_uint(it) + cbor_isa_negint(it) + cbor_isa_bytestring(it) + cbor_isa_string(it) + cbor_isa_array(it) + cbor_isa_map(it) + cbor_isa_tag(it) + cbor_isa_float_ctrl(it);
+  if (isa != 1) return "not exactly one cbor_isa_* predicate is true";
+  bool want[8] = {cbor_isa_uint(it), cbor_isa_negint(it), cbor_isa_bytestring(it), cbor_isa_string(it), cbor_isa_array(it), cbor_isa_map(it), cbor_isa_tag(it), cbor_isa_float_ctrl(it)};
+  if (!want[(int)t]) return "cbor_typeof disagrees with the cbor_isa_* predicates";
+  if (cbor_is_int(it) != (t == CBOR_TYPE_UINT || t == CBOR_TYPE_NEGINT)) return "cbor_is_int disagrees with the type";
+  if (t == CBOR_TYPE_FLOAT_CTRL) {
+    bool ctrl = cbor_float_ctrl_is_ctrl(it);
+    if (cbor_is_float(it) == ctrl) return "cbor_is_float and cbor_float_ctrl_is_ctrl are not complementary";
+    if (ctrl != (cbor_float_get_width(it) == CBOR_FLOAT_0)) return "cbor_float_ctrl_is_ctrl disagrees with the width";
+    if (ctrl) {
+      uint8_t v = cbor_ctrl_value(it);
+      if (cbor_is_bool(it) != (v == 20 || v == 21)) return "cbor_is_bool disagrees with the simple value";
+      if (cbor_is_null(it) != (v == 22)) return "cbor_is_null disagrees with the simple value";
+      if (cbor_is_undef(it) != (v == 23)) return "cbor_is_undef disagrees with the simple value";
+      if (cbor_is_bool(it) && cbor_get_bool(it) != (v == 21)) return "cbor_get_bool disagrees with the simple value";
+    } else {
+      if (cbor_is_bool(it) || cbor_is_null(it) || cbor_is_undef(it)) return "a float item claims to be bool/null/undef";
+      double wide = cbor_float_get_float(it);
+      double exact = cbor_float_get_width(it) == CBOR_FLOAT_64 ? cbor_float_get_float8(it) : (double)(cbor_float_get_width(it) == CBOR_FLOAT_16 ? cbor_float_get_float2(it) : cbor_float_get_float4(it));
+      if (!(wide != wide && exact != exact) && memcmp(&wide, &exact, sizeof wide)) return "cbor_float_get_float disagrees with the width-specific getter";
+    }
+  } else if (cbor_is_float(it) || cbor_is_bool(it) || cbor_is_null(it) || cbor_is_undef(it)) return "a non-float/ctrl item satisfies a float/ctrl predicate";
+  if (t == CBOR_TYPE_UINT || t == CBOR_TYPE_NEGINT) {
+    uint64_t g = cbor_get_int(it), w;
+    switch (cbor_int_get_width(it)) {
+      case CBOR_INT_8: w = cbor_get_uint8(it); break;
+      case CBOR_INT_16: w = cbor_get_uint16(it); break;
+      case CBOR_INT_32: w = cbor_get_uint32(it); break;
+      default: w = cbor_get_uint64(it); break;
+    }
+    if (g != w) return "cbor_get_int disagrees with the width-specific getter";
+  }
+  if (t == CBOR_TYPE_BYTESTRING && cbor_bytestring_is_definite(it) == cbor_bytestring_is_indefinite(it)) return "bytestring is_definite / is_indefinite not complementary";
+  if (t == CBOR_TYPE_STRING && cbor_string_is_definite(it) == cbor_string_is_indefinite(it)) return "string is_definite / is_indefinite not complementary";
+  if (t == CBOR_TYPE_ARRAY && cbor_array_is_definite(it) == cbor_array_is_indefinite(it)) return "array is_definite / is_indefinite not complementary";
+  if (t == CBOR_TYPE_MAP && cbor_map_is_definite(it) == cbor_map_is_indefinite(it)) return "map is_definite / is_indefinite not complementary";
+  return NULL;
+}
+struct pred_ud { const char* bad; };
+static void pred_cb(const void* p, size_t len, const char* what, void* ud) {
+  (void)len;
+  struct pred_ud* u = ud;
+  if (!u->bad && !strcmp(what, "item")) u->bad = check_node_predicates((const cbor_item_t*)p);
+}
+const char* walk_check_predicates(const cbor_item_t* it) { struct pred_ud u = {NULL}; walk_blocks(it, pred_cb, &u); return u.bad; }
